@@ -68,7 +68,7 @@ var keyPool = func() []ed25519.PrivKeyEd25519 {
 	return ks
 }()
 
-func pub(i int) crypto.PubKey      { return keyPool[i].PubKey() }
+func pub(i int) crypto.PubKey     { return keyPool[i].PubKey() }
 func addrOf(i int) crypto.Address { return keyPool[i].PubKey().Address() }
 
 var poolIndex = func() map[crypto.Address]int {
@@ -408,7 +408,9 @@ func hugeRun(c *vf.Ctx, tl tally, i int, r *rand.Rand) {
 	members := r.Perm(len(keyPool))[:n]
 	sort.Ints(members)
 	var hist []int
-	witness := func() any { return map[string]any{"workload": "huge", "members": members, "powers": power, "increment_times": hist} }
+	witness := func() any {
+		return map[string]any{"workload": "huge", "members": members, "powers": power, "increment_times": hist}
+	}
 	var vs *types.ValidatorSet
 	if pv := vf.Try(func() { vs = mkSet(members, power) }); pv != nil {
 		c.Violation("newvalidatorset-panic", witness(), "NewValidatorSet panicked for a total <= MaxTotalVotingPower: %v", pv)
@@ -510,7 +512,7 @@ func randBig(r *rand.Rand, max *big.Int) *big.Int {
 // ---------------------------------------------------------------- (c) update histories
 
 type change struct {
-	Key    int    `json:"key"`             // pool index
+	Key    int    `json:"key"` // pool index
 	Power  int64  `json:"power"`
 	Defect string `json:"defect,omitempty"` // zero-address | nil-key | mismatch
 }
